@@ -669,17 +669,137 @@ def _corr_mapping(ctx, out):
             out["nontrivial"].add(("project", str(case)))
 
 
+# --------------------------------------------------------------------------
+# (E) update_scoped_rules
+# --------------------------------------------------------------------------
+def _gen_rules(rng):
+    """(rich, null) rule lists as python dicts; mostly well-formed nestings, sometimes arbitrary"""
+    edges = rng.choice([["a", "b", "c"], ["a", "b", "c", "dd"], ["Human", "Chimp", "e.0", "x"]])
+    pars = rng.choice([["p"], ["p", "q"], ["p", "q", "a"]])  # "a" may collide with an edge name
+
+    def mk(par, scope, v, form=None):
+        r = dict(par_name=par)
+        r["init" if rng.random() < 0.75 else "value"] = v
+        if scope is None:
+            if rng.random() < 0.4:
+                r["edges"] = None
+        elif len(scope) == 1 and (form == "edge" or (form is None and rng.random() < 0.6)):
+            r["edge"] = scope[0]
+        else:
+            r["edges"] = list(scope)
+        return r
+
+    val = lambda: rng.choice([0.25, 0.5, 1.0, 2.0, 3.5, 7.0])
+
+    def partition(es):
+        es = es[:]
+        rng.shuffle(es)
+        blocks = []
+        while es:
+            n = rng.randint(1, len(es))
+            blocks.append(sorted(es[:n]))
+            es = es[n:]
+        return blocks
+
+    rich, null = [], []
+    if rng.random() < 0.7:
+        for par in pars:
+            style = rng.random()
+            if style < 0.3:
+                nblocks = [None]
+            else:
+                nblocks = partition(edges)
+                if rng.random() < 0.3:
+                    nblocks = nblocks[:-1] or nblocks  # some edges not covered by the null
+            if rng.random() < 0.85:
+                for b in nblocks:
+                    null.append(mk(par, b, val()))
+            # rich: refinement of the null blocks (or free, or the same)
+            rstyle = rng.random()
+            if rstyle < 0.25:
+                rich.append(mk(par, None, 1.0))
+            elif rstyle < 0.5:
+                for b in nblocks:
+                    rich.append(mk(par, b, 1.0))
+            else:
+                for b in nblocks:
+                    for bb in partition(b if b is not None else edges):
+                        rich.append(mk(par, bb, 1.0))
+        rng.shuffle(rich)
+        rng.shuffle(null)
+    else:
+        for lst, n in ((rich, rng.randint(0, 5)), (null, rng.randint(0, 5))):
+            for _ in range(n):
+                k = rng.random()
+                scope = None if k < 0.25 else ([] if k < 0.3 else rng.sample(edges, rng.randint(1, len(edges))))
+                lst.append(mk(rng.choice(pars), scope, val()))
+    return rich, null
+
+
+def _rule_req(r):
+    if "edge" in r and r.get("edges") is None and "edges" not in r:
+        edges, single = [r["edge"]], True
+    else:
+        edges, single = r.get("edges"), False
+    return dict(par=r["par_name"], edges=edges, single=single, val=rat(r.get("init", r.get("value"))))
+
+
+def _rule_canon(r):
+    if r.get("edge") is not None:
+        scope = [r["edge"]]
+    else:
+        scope = r.get("edges")
+    return (r["par_name"], None if scope is None else sorted(scope), float(r.get("init", r.get("value"))))
+
+
+def _corr_scoped(ctx, out):
+    from copy import deepcopy
+
+    from cogent3.evolve.likelihood_function import update_scoped_rules
+
+    rng = ctx.subrng("scoped")
+    cases = [_gen_rules(rng) for _ in range(ctx.budget(2500, 30000))]
+    reps = ctx.driver.batch([("scoped", dict(rich=[_rule_req(r) for r in rich], null=[_rule_req(r) for r in null])) for rich, null in cases])
+    for (rich, null), rep in zip(cases, reps):
+        out["evaluations"] += 1
+        try:
+            got = sorted((_rule_canon(r) for r in update_scoped_rules(deepcopy(rich), deepcopy(null))), key=repr)
+            got = [list(g) for g in got]
+        except ValueError:
+            got = {"err": "ValueError"}
+        except Exception as e:  # anything else is outside the model
+            got = {"err": type(e).__name__}
+        if "rules" in rep:
+            want = sorted(((r["par"], None if r["edges"] is None else sorted(r["edges"]), float(unrat(r["val"]))) for r in rep["rules"]), key=repr)
+            want = [list(w) for w in want]
+        else:
+            want = rep
+        if want != got:
+            add_failure(out, "corr", "update_scoped_rules: model differs", dict(rich=rich, null=null), want, got, confirmed=False)
+            continue
+        bump(out, "scoped_outcome", got["err"] if isinstance(got, dict) else "ok")
+        if not isinstance(got, dict):
+            changed = sum(1 for g in got if g[2] != 1.0)
+            bump(out, "scoped_rules_out", min(len(got), 8))
+            if changed:
+                out["nontrivial"].add(("scoped", str(rich), str(null)))
+            if len(out["samples"]) < 12 and len(got) >= 4 and changed >= 3 and rng.random() < 0.05:
+                out["samples"].append(dict(rich=rich, null=null, result=got))
+
+
 def correspondence(ctx):
     out = new_outcome(
         "(A) scripted optimisers through the real maximise: seeded random objective tables (raises, NaN, ±inf, ties), "
         "query lists with out-of-bounds points, max_evaluations None/0..n+2, local/global/both; non-trivial = >= 3 calls "
         "of the objective. (B) real Powell/SA traces; non-trivial = best point is not the last query. (C) start clamp; "
-        "non-trivial = vector changed. (D) generated + named coordinate families; non-trivial = some rich parameter mapped"
+        "non-trivial = vector changed. (D) generated + named coordinate families; non-trivial = some rich parameter mapped. "
+        "(E) update_scoped_rules on generated rule lists (nested partitions of the edges, free / per-edge / clade scopes, singular \"edge\" form, name collisions, malformed); non-trivial = some rule value changed"
     )
     _corr_scripted(ctx, out)
     _corr_real_optimisers(ctx, out)
     _corr_clamp(ctx, out)
     _corr_mapping(ctx, out)
+    _corr_scoped(ctx, out)
     return out
 
 
@@ -720,11 +840,12 @@ def _mk_lf(model, tree_s, aln, rules=(), model_kw=None):
     return lf
 
 
-def _opt(lf, local, me, tol=1e-6, seed=0, limit_action="ignore"):
+def _opt(lf, local, me, tol=1e-6, seed=0, limit_action="ignore", **extra):
     kw = {} if local else dict(seed=seed)
+    kw.update({k: v for k, v in extra.items() if v is not None})
     with warnings.catch_warnings():
         warnings.simplefilter("ignore")
-        lf.optimise(local=local, max_evaluations=me, tolerance=tol, limit_action=limit_action, show_progress=False, **kw)
+        return lf.optimise(local=local, max_evaluations=me, tolerance=tol, limit_action=limit_action, show_progress=False, **kw)
 
 
 def _mode(local):
@@ -766,8 +887,82 @@ def _run_init_case(case):
     d = float(alt.lnL) - float(null.lnL)
     info["delta"] = d
     if not abs(d) <= _tol(null.lnL):
+        pressed = _at_bound(alt)
+        if pressed:
+            # the null optimum, mapped into the alt parameterisation, lies outside the alt's declared box and was
+            # clipped onto the bound: the *bounded* models are not nested (outside the quantifier)
+            info["skipped"] = "null image outside the alt's bounds (clipped)"
+            info["clipped"] = pressed
+            return None, info
         return dict(kind="lnL", delta=d), info
     return None, info
+
+
+def _at_bound(lf):
+    """free rate parameters sitting exactly on a declared bound"""
+    res = []
+    for r in lf.get_param_rules():
+        v = r.get("init")
+        if v is None or isinstance(v, dict) or r.get("is_constant") or r["par_name"] in ("mprobs", "length"):
+            continue
+        if v == r.get("lower") or v == r.get("upper"):
+            res.append((r["par_name"], float(v)))
+    return res
+
+
+_RATE_PARAMS = {}
+
+
+def _rate_params(model):
+    if model not in _RATE_PARAMS:
+        from cogent3 import get_model
+
+        sm = get_model(model)
+        _RATE_PARAMS[model] = [p for p in sm.get_param_matrix_coords() if p not in ("ref_cell",)]
+    return _RATE_PARAMS[model]
+
+
+NULL_VARIANTS = ["free", "const", "const", "bounded", "edge", "clade", "mixed"]
+
+
+def _null_variant(rng, variant, null, alt, taxa):
+    """(null_rules, alt_rules) putting the nested model's rate terms into the given configuration class; when
+    the nested model scopes a term by edge every rate term of the alternative gets the same scope, so the
+    alternative stays richer"""
+    ps = _rate_params(null)
+    qs = _rate_params(alt)
+    if not ps or variant == "free":
+        return [], []
+    val = lambda: round(math.exp(rng.uniform(-1.2, 1.4)), 3)
+    two = sorted(rng.sample(taxa, 2))
+    if variant == "const":
+        k = rng.randint(1, min(2, len(ps)))
+        return [dict(par_name=p, is_constant=True, value=val()) for p in rng.sample(ps, k)], []
+    if variant == "bounded":
+        rules = []
+        for p in ps:
+            v = val()
+            rules.append(dict(par_name=p, init=v, lower=round(v * 0.8, 4), upper=round(v * 1.25, 4)))
+        return rules, []
+    if variant == "edge":
+        p = rng.choice(ps)
+        return [dict(par_name=p, is_independent=True, upper=20.0)], [dict(par_name=q, is_independent=True) for q in qs]
+    if variant == "clade":
+        p = rng.choice(ps)
+        return ([dict(par_name=p, edges=two, is_independent=False, upper=20.0)],
+                [dict(par_name=q, edges=two, is_independent=False) for q in qs])
+    # mixed: a constant term (possibly edge-scoped) and, if there is a second term, a clade-scoped free one
+    p1 = rng.choice(ps)
+    rules = [dict(par_name=p1, is_constant=True, value=val())]
+    alt_rules = []
+    if rng.random() < 0.5:
+        rules = [dict(par_name=p1, edges=two, is_constant=True, value=val())]
+        alt_rules = [dict(par_name=q, edges=two, is_independent=False) for q in qs]
+    rest = [p for p in ps if p != p1]
+    if rest:
+        rules.append(dict(par_name=rng.choice(rest), edges=two, is_independent=False, upper=20.0))
+        alt_rules = [dict(par_name=q, edges=two, is_independent=False) for q in qs]
+    return rules, alt_rules
 
 
 def _pair_class(a, b):
@@ -810,6 +1005,18 @@ def _spec_init(ctx, out, rng, budget):
             cases.append(dict(check="init", null=a, alt=b, tree=tree_s, taxa=taxa, start=rng.randrange(0, 2000, 3),
                               length=rng.choice([150, 300, 450]), max_evaluations=rng.choice([0, 3, 20, 100, 400]),
                               cls=_pair_class(a, b)))
+    # the nested model's rate terms constant / bounded / edge-scoped / mixed, over every nested pair whose null has rate terms
+    with_terms = [p for p in NESTED_NUC if _rate_params(p[0])]
+    for a, b in with_terms:
+        variants = [v for v in NULL_VARIANTS if v != "free"]
+        rng.shuffle(variants)
+        # not-same pairs (the re-projected values) get every configuration class on every run
+        for variant in (variants if _pair_class(a, b) == "notsame" or budget >= 8 else variants[:2]):
+            tree_s, taxa = rng.choice(TREES[1:])
+            nr, ar = _null_variant(rng, variant, a, b, taxa)
+            cases.append(dict(check="init", null=a, alt=b, null_rules=nr, alt_rules=ar, tree=tree_s, taxa=taxa,
+                              start=rng.randrange(0, 2000, 3), length=rng.choice([150, 300]),
+                              max_evaluations=rng.choice([0, 10, 60]), cls=_pair_class(a, b), null_cfg=variant))
     for _ in range(max(2, budget // 2)):
         tree_s, taxa = rng.choice(TREES[1:])
         for kind, label, nm, nr, am, ar in _scoping_cases(rng, tree_s, taxa):
@@ -821,15 +1028,27 @@ def _spec_init(ctx, out, rng, budget):
         tree_s, taxa = rng.choice(TREES)
         cases.append(dict(check="init", null=a, alt=b, alt_kw=dict(optimise_motif_probs=True), tree=tree_s, taxa=taxa,
                           start=rng.randrange(0, 2000, 3), length=300, max_evaluations=rng.choice([5, 60]), cls="mprobs-freed"))
-    codon_pairs = [("MG94HKY", "MG94GTR"), ("CNFHKY", "CNFGTR"), ("MG94HKY", "GNC")] if budget >= 8 else [("MG94HKY", "MG94GTR")]
-    for a, b in codon_pairs:
-        cases.append(dict(check="init", null=a, alt=b, tree=TREES[0][0], taxa=TREES[0][1], start=rng.randrange(0, 1500, 3),
-                          length=150, max_evaluations=rng.choice([5, 25]), codon=True, cls="codon"))
+    codon_all = [
+        dict(null="MG94HKY", alt="MG94GTR"), dict(null="CNFHKY", alt="CNFGTR"), dict(null="MG94HKY", alt="GNC"),
+        dict(null="GY94", alt="Y98"),
+        # time heterogeneity on a clade / constant omega in the nested model
+        dict(null="MG94HKY", alt="MG94HKY", alt_rules=[dict(par_name="omega", edges=["Human", "Chimpanzee"], is_independent=False)], cls="codon-scoped"),
+        dict(null="CNFGTR", alt="CNFGTR", null_rules=[dict(par_name="omega", is_constant=True, value=0.4)], cls="codon-const", null_cfg="const"),
+        dict(null="MG94HKY", alt="MG94GTR", null_rules=[dict(par_name="kappa", is_constant=True, value=2.2)], cls="codon-const", null_cfg="const"),
+    ]
+    if budget >= 8:
+        codon_cases = codon_all
+    else:  # low volume in quick: the basic pair plus one other
+        codon_cases = [codon_all[0], rng.choice([codon_all[1]] + codon_all[4:])]
+    for cc in codon_cases:
+        cases.append(dict(dict(check="init", tree=TREES[0][0], taxa=TREES[0][1], start=rng.randrange(0, 1500, 3),
+                               length=150, max_evaluations=rng.choice([5, 25]), codon=True, cls="codon"), **cc))
     for case in cases:
         out["evaluations"] += 1
         prob, info = _run_init_case(case)
         bump(out, "init_pair", f"{case['null']}->{case['alt']}")
         bump(out, "init_class", case["cls"])
+        bump(out, "init_null_config", case.get("null_cfg", "free"))
         if "label" in case:
             bump(out, "init_scoping", case["label"])
         bump(out, "init_null_max_evaluations", case["max_evaluations"])
@@ -844,11 +1063,11 @@ def _spec_init(ctx, out, rng, budget):
         elif prob["kind"] == "raise":
             bump(out, "init_outcome", "raised:" + prob["exc"])
             add_failure(out, "spec", f"initialise_from_nested raised {prob['exc']} on a nested pair", case, "alt.lnL == null.lnL", prob,
-                        sig=f"init-raise:{prob['exc']}:{case['cls']}")
+                        sig=f"init-raise:{prob['exc']}:{case['cls']}" + (f":{case['null_cfg']}" if case.get("null_cfg") else ""))
         else:
             bump(out, "init_outcome", "lnL differs")
             add_failure(out, "spec", "initialise_from_nested does not reproduce the nested lnL", case,
-                        info["null_lnL"], info["null_lnL"] + prob["delta"], sig=f"init-lnL:{case['cls']}:{case['null']}->{case['alt']}")
+                        info["null_lnL"], info["null_lnL"] + prob["delta"], sig=f"init-lnL:{case['cls']}:{case.get('null_cfg', 'free')}:{case['null']}->{case['alt']}")
 
 
 def _random_start(lf, rng, model):
@@ -870,16 +1089,44 @@ def _random_start(lf, rng, model):
     return rules
 
 
+def _press_bounds(lf, rng):
+    """declare bounds close to (or exactly at) the current value of every free scalar parameter"""
+    for r in lf.get_param_rules():
+        v = r.get("init")
+        if v is None or isinstance(v, dict) or r.get("is_constant") or r["par_name"] == "mprobs":
+            continue
+        kind = rng.choice(["tight", "at-lower", "at-upper", "leave"])
+        if kind == "leave":
+            continue
+        v = float(v)
+        lo, hi = v * 0.9, v * 1.1
+        if kind == "at-lower":
+            lo = v
+        elif kind == "at-upper":
+            hi = v
+        rr = dict(par_name=r["par_name"], init=v, lower=lo, upper=hi)
+        if "edges" in r:
+            rr["edges"] = r["edges"]
+        elif "edge" in r:
+            rr["edge"] = r["edge"]
+        lf.set_param_rule(**rr)
+
+
 def _run_opt_case(case):
     aln = _alignment(case["taxa"], case["start"], case["length"], case.get("codon", False))
     lf = _mk_lf(case["model"], case["tree"], aln, case.get("rules", ()))
     import random
 
     starts = _random_start(lf, random.Random(case["start_seed"]), case["model"]) if case.get("start_seed") is not None else None
+    if case.get("pressed"):
+        _press_bounds(lf, random.Random(case["pressed"]))
     before = float(lf.lnL)
     exc = None
+    calc = None
     try:
-        _opt(lf, case["local"], case["max_evaluations"], case["tolerance"], case["seed"], case.get("limit_action", "ignore"))
+        calc = _opt(lf, case["local"], case["max_evaluations"], case["tolerance"], case["seed"], case.get("limit_action", "ignore"),
+                    global_tolerance=case.get("global_tolerance"), max_restarts=case.get("max_restarts"),
+                    return_calculator=case.get("return_calculator"))
     except ArithmeticError as e:  # limit_action="raise"
         exc = "ArithmeticError"
         if case.get("limit_action") != "raise" or "FORCED EXIT" not in str(e):
@@ -890,6 +1137,12 @@ def _run_opt_case(case):
     info = dict(before=before, after=after, exc=exc)
     if not (after >= before - _tol(before)):
         return dict(kind="worse", delta=after - before), info
+    if case.get("return_calculator") and calc is not None:
+        # the calculator handed back must be left at the reported optimum too
+        cval = float(calc(calc.get_value_array()))
+        info["calc"] = cval
+        if not abs(cval - after) <= _tol(after):
+            return dict(kind="calc", calc=cval, lf=after), info
     b = _bounds_problem(lf)
     if b is not None:
         return dict(kind="bounds", **b), info
@@ -912,11 +1165,18 @@ def _spec_optimise(ctx, out, rng, budget):
             rules = [dict(par_name="kappa", is_independent=True)]
         if model == "GTR" and rng.random() < 0.3:
             rules = [dict(par_name="A/G", is_independent=True)]
+        if local is not True and rng.random() < 0.5:
+            # evaluation limit hit during the annealing phase (small) or after it, in the local phase (large)
+            me = rng.choice([3, 8, 20, 60, 150, 400, 1200, 3000])
         cases.append(dict(check="optimise", model=model, tree=tree_s, taxa=taxa, start=rng.randrange(0, 2000, 3),
                           length=rng.choice([150, 300, 450]), local=local, max_evaluations=me, rules=rules,
                           tolerance=rng.choice([1e-6, 1e-6, 1e-3, 1e-1]), seed=rng.randrange(10**6),
                           start_seed=rng.randrange(10**6) if rng.random() < 0.7 else None,
-                          limit_action=rng.choice(["ignore", "ignore", "warn", "raise"])))
+                          limit_action=rng.choice(["ignore", "ignore", "warn", "raise"]),
+                          global_tolerance=None if local is True else rng.choice([None, 0.1, 1.0, 10.0]),
+                          max_restarts=rng.choice([None, None, 0, 2]),
+                          return_calculator=True if rng.random() < 0.2 else None,
+                          pressed=rng.randrange(1, 10**6) if rng.random() < 0.25 else None))
     if budget >= 8:
         cases.append(dict(check="optimise", model="MG94HKY", tree=TREES[0][0], taxa=TREES[0][1], start=300, length=150, codon=True,
                           local=True, max_evaluations=40, rules=[], tolerance=1e-6, seed=1, start_seed=None))
@@ -928,6 +1188,8 @@ def _spec_optimise(ctx, out, rng, budget):
         bump(out, "opt_model", case["model"])
         bump(out, "opt_max_evaluations", str(case["max_evaluations"]))
         bump(out, "opt_limit_action", case.get("limit_action", "ignore"))
+        bump(out, "opt_config", ("pressed-bounds " if case.get("pressed") else "") + ("global_tolerance " if case.get("global_tolerance") else "")
+             + ("max_restarts " if case.get("max_restarts") is not None else "") + ("return_calculator" if case.get("return_calculator") else "") or "plain")
         if prob is None:
             gain = info["after"] - info["before"]
             bump(out, "opt_outcome", "improved" if gain > 1e-6 else "unchanged")
@@ -940,7 +1202,11 @@ def _spec_optimise(ctx, out, rng, budget):
         elif prob["kind"] == "worse":
             bump(out, "opt_outcome", "WORSE")
             add_failure(out, "spec", "optimise returned a lower log-likelihood than it started from", case,
-                        f">= {info['before']}", info["after"], sig=f"opt-worse:{mode}")
+                        f">= {info['before']}", info["after"], sig=f"opt-worse:{mode}:{'limit-small' if (case['max_evaluations'] or 10**9) <= 60 else 'limit-large'}")
+        elif prob["kind"] == "calc":
+            bump(out, "opt_outcome", "CALCULATOR-NOT-AT-OPTIMUM")
+            add_failure(out, "spec", "the calculator returned by optimise(return_calculator=True) is not left at the reported optimum", case,
+                        info["after"], prob, sig=f"opt-calc-state:{mode}")
         elif prob["kind"] == "bounds":
             bump(out, "opt_outcome", "OUT-OF-BOUNDS")
             add_failure(out, "spec", "optimised parameter outside its declared bounds", case, "lower <= value <= upper", prob,
@@ -1034,6 +1300,197 @@ def _spec_hypothesis(ctx, out, rng, budget):
             add_failure(out, "spec", "hypothesis app did not complete on a nested pair", case, "hypothesis_result", prob, sig=f"hyp-notcompleted:{case['cls']}")
 
 
+# ---- the hypothesis / model_collection apps ------------------------------------------------------------------
+APP_CHAINS = [
+    # same substitution model, the alternate differs only by time heterogeneity
+    [dict(model="HKY85"), dict(model="HKY85", time_het="max")],
+    [dict(model="HKY85"), dict(model="HKY85", time_het="clade")],
+    [dict(model="GTR"), dict(model="GTR", time_het="max")],
+    [dict(model="TN93"), dict(model="TN93", time_het="clade")],
+    [dict(model="K80"), dict(model="K80", time_het="max")],
+    [dict(model="HKY85"), dict(model="HKY85", time_het="clade"), dict(model="HKY85", time_het="max")],
+    # cross-model
+    [dict(model="HKY85"), dict(model="GTR")],
+    [dict(model="F81"), dict(model="HKY85"), dict(model="GTR")],
+    [dict(model="JC69"), dict(model="K80"), dict(model="TN93")],
+    [dict(model="HKY85"), dict(model="GTR"), dict(model="GN")],
+    [dict(model="GTR"), dict(model="GN")],
+    [dict(model="HKY85"), dict(model="GN")],
+    [dict(model="F81"), dict(model="GN")],
+    [dict(model="K80"), dict(model="ssGN"), dict(model="GN")],
+    # cross-model with time heterogeneity in the alternate
+    [dict(model="HKY85"), dict(model="GTR", time_het="max")],
+    [dict(model="F81"), dict(model="HKY85", time_het="clade")],
+]
+
+
+def _th_arg(spec, clade):
+    th = spec.get("time_het")
+    if th == "clade":
+        return [dict(edges=list(clade), is_independent=False)]
+    return th
+
+
+def _link_class(prev, spec):
+    cfg = "time_het-" + spec["time_het"] if spec.get("time_het") else "plain"
+    kind = "same-model" if prev["model"] == spec["model"] else "cross-model:" + _pair_class(prev["model"], spec["model"])
+    return f"{kind}:{cfg}"
+
+
+def _fresh_like(spec, case, aln):
+    """an alternate built outside the app (no [lower, upper] box): the same model and time heterogeneity"""
+    lf = _mk_lf(spec["model"], case["tree"], aln)
+    th = _th_arg(spec, case["clade"])
+    if th == "max":
+        lf.set_time_heterogeneity(is_independent=True)
+    elif th:
+        lf.set_time_heterogeneity(edge_sets=th)
+    return lf
+
+
+def _link_outside_box(prev_lf, spec, case, aln):
+    """True when the nested optimum, mapped into the alternate's parameterisation, falls outside the box the app
+    declares for the alternate (then the bounded models are not nested)"""
+    upper = case.get("upper") or 50
+    try:
+        alt = _fresh_like(spec, case, aln)
+        with warnings.catch_warnings():
+            warnings.simplefilter("ignore")
+            alt.initialise_from_nested(prev_lf)
+    except Exception:
+        return None
+    pressed = _at_bound(alt)  # clipped already by the fresh function's own default box [1e-6, 1e6]
+    if pressed:
+        return pressed
+    if abs(float(alt.lnL) - float(prev_lf.lnL)) > _tol(prev_lf.lnL):
+        return None
+    bad = []
+    for r in alt.get_param_rules():
+        v = r.get("init")
+        if v is None or isinstance(v, dict) or r["par_name"] == "mprobs":
+            continue
+        if v <= 1e-6 or v >= upper:
+            bad.append((r["par_name"], float(v)))
+    return bad or None
+
+
+def _run_app_case(case):
+    from cogent3.app import evo
+
+    aln = _alignment(case["taxa"], case["start"], case["length"])
+    chain = case["chain"]
+    mods = []
+    for i, spec in enumerate(chain):
+        oa = dict(max_evaluations=spec["me"], limit_action="ignore")
+        kw = dict(tree=case["tree"], opt_args=oa, show_progress=False, name=f"m{i}")
+        th = _th_arg(spec, case["clade"])
+        if th:
+            kw["time_het"] = th
+        if case.get("upper"):
+            kw["upper"] = case["upper"]
+        mods.append(evo.model(spec["model"], **kw))
+    extra = {}
+    with warnings.catch_warnings():
+        warnings.simplefilter("ignore")
+        if case.get("init_alt") == "prefit":
+            pre = mods[0](aln)
+
+            def init_alt(lf, identifier, pre=pre):
+                lf.initialise_from_nested(pre.lf)
+                return lf
+
+            extra["init_alt"] = init_alt
+        elif not case.get("sequential", True):
+            extra["sequential"] = False
+        app = (evo.hypothesis if case["app"] == "hypothesis" else evo.model_collection)(mods[0], *mods[1:], **extra)
+        r = app(aln)
+    if not r:
+        return dict(kind="notcompleted", msg=str(r)[:160]), {}
+    lnls = [float(r[f"m{i}"].lnL) for i in range(len(chain))]
+    info = dict(lnL=lnls)
+    if case["app"] == "hypothesis":
+        info["LR"] = float(r.LR)
+    for i in range(1, len(chain)):
+        ref_i = 0 if case.get("init_alt") == "prefit" else i - 1
+        link = _link_class(chain[ref_i], chain[i])
+        if not case.get("sequential", True) and not case.get("init_alt"):
+            # alternates are fitted from default values on request: only "never below its own start" is claimed
+            start = float(_fresh_like(chain[i], case, aln).lnL)
+            if not lnls[i] >= start - _tol(start):
+                return dict(kind="below-default-start", index=i, link=link, start=start, lnL=lnls[i]), info
+            continue
+        lo = lnls[ref_i]
+        bad = None
+        if not lnls[i] >= lo - _tol(lo):
+            bad = "worse"
+        elif chain[i]["me"] == 0 and abs(lnls[i] - lo) > _tol(lo):
+            bad = "init-lost"  # with no evaluations allowed the alternate must sit exactly at the nested optimum
+        if bad:
+            out_box = _link_outside_box(r[f"m{ref_i}"].lf, chain[i], case, aln)
+            if out_box:
+                info.setdefault("outside_box", []).append((i, out_box[:3]))
+                continue
+            return dict(kind=bad, index=i, link=link, nested_lnL=lo, lnL=lnls[i], LR=info.get("LR")), info
+    if case["app"] == "hypothesis" and not info.get("outside_box") and case.get("sequential", True):
+        if not info["LR"] >= -2 * _tol(lnls[0]):
+            return dict(kind="worse", index=1, link=_link_class(chain[0], chain[1]), nested_lnL=lnls[0], lnL=lnls[1], LR=info["LR"]), info
+    return None, info
+
+
+def _spec_apps(ctx, out, rng, budget):
+    cases = []
+    chains = list(APP_CHAINS)
+    n = 60 * budget
+    for k in range(n):
+        chain = [dict(c) for c in (chains[k % len(chains)] if k < 2 * len(chains) else rng.choice(chains))]
+        tree_s, taxa = rng.choice(TREES[1:])
+        for i, spec in enumerate(chain):
+            spec["me"] = rng.choice([5, 25, 100]) if i == 0 else rng.choice([0, 0, 5, 25])
+        app = "hypothesis" if len(chain) == 2 and rng.random() < 0.7 else "model_collection"
+        mode = rng.random()
+        case = dict(check="app", app=app, chain=chain, tree=tree_s, taxa=taxa, clade=["Human", "Chimpanzee"],
+                    start=rng.randrange(0, 2000, 3), length=rng.choice([150, 300]),
+                    upper=rng.choice([None, 1000.0, 1000.0]))
+        if mode < 0.12:
+            case["sequential"] = False
+        elif mode < 0.27 and len(chain) == 2:
+            case["init_alt"] = "prefit"
+        cases.append(case)
+    for case in cases:
+        out["evaluations"] += 1
+        try:
+            prob, info = _run_app_case(case)
+        except Exception as e:
+            prob, info = dict(kind="raise", exc=type(e).__name__, msg=str(e)[:160]), {}
+        chain = case["chain"]
+        bump(out, "app", case["app"])
+        bump(out, "app_chain", "->".join(c["model"] + ("+" + c["time_het"] if c.get("time_het") else "") for c in chain))
+        bump(out, "app_alt_max_evaluations", "/".join(str(c["me"]) for c in chain[1:]))
+        bump(out, "app_init", "sequential=False" if case.get("sequential") is False else case.get("init_alt") or "sequential")
+        if prob is None:
+            if info.get("outside_box"):
+                bump(out, "app_outcome", "link not nested under the app's box (nested optimum outside the alternate's bounds)")
+            else:
+                bump(out, "app_outcome", "ok")
+            if max(info["lnL"]) - info["lnL"][0] > 1e-6:
+                out["nontrivial"].add(("app", str(case)))
+            if len(out["samples"]) < 9 and any(c.get("time_het") for c in chain) and any(c["me"] == 0 for c in chain[1:]):
+                out["samples"].append(dict(case=case, **info))
+            continue
+        bump(out, "app_outcome", prob["kind"].upper())
+        cfg = "sequential=False" if case.get("sequential") is False else ("init_alt" if case.get("init_alt") else "sequential")
+        if prob["kind"] in ("worse", "init-lost", "below-default-start"):
+            what = {"worse": "alternate fitted by the app has a lower lnL than the model nested in it (negative LR)",
+                    "init-lost": "alternate with max_evaluations=0 does not start at the nested model's lnL (initialisation lost)",
+                    "below-default-start": "model fitted from defaults ends below its own start"}[prob["kind"]]
+            add_failure(out, "spec", what, case, f">= {prob.get('nested_lnL', prob.get('start'))}", prob,
+                        sig=f"app-{prob['kind']}:{case['app']}:{prob['link']}:{cfg}")
+        elif prob["kind"] == "notcompleted":
+            add_failure(out, "spec", "app did not complete on a nested chain", case, "result", prob, sig=f"app-notcompleted:{case['app']}:{cfg}")
+        else:
+            add_failure(out, "spec", f"app raised {prob['exc']}", case, "result", prob, sig=f"app-raise:{prob['exc']}:{case['app']}:{cfg}")
+
+
 def spec_check(ctx, budget):
     out = new_outcome(
         "real alignments (windows of tests/data/primate_brca1.fasta, 3-5 taxa): nested initialisation over the named nested "
@@ -1046,6 +1503,7 @@ def spec_check(ctx, budget):
     _spec_init(ctx, out, rng, budget)
     _spec_optimise(ctx, out, rng, budget)
     _spec_hypothesis(ctx, out, rng, budget)
+    _spec_apps(ctx, out, rng, budget)
     return out
 
 
@@ -1080,6 +1538,8 @@ def _rerun(case):
         return _run_opt_case(case)
     if case.get("check") == "hypothesis":
         return _run_hyp_case(case)
+    if case.get("check") == "app":
+        return _run_app_case(case)
     return None, {}
 
 
@@ -1094,7 +1554,7 @@ def check_witness(ctx, w):
                     sig=f"init-raise:{prob['exc']}:{w['cls']}")
     elif w.get("check") == "init":
         add_failure(out, "spec", "initialise_from_nested does not reproduce the nested lnL", w, info.get("null_lnL"), prob,
-                    sig=f"init-lnL:{w['cls']}:{w['null']}->{w['alt']}")
+                    sig=f"init-lnL:{w['cls']}:{w.get('null_cfg', 'free')}:{w['null']}->{w['alt']}")
     else:
         add_failure(out, "spec", "witness still fails", w, None, prob, sig=f"{w.get('check')}:{prob['kind']}")
     return out["failures"][0]
